@@ -209,6 +209,12 @@ def _term(term, z):
             r = np.float64(term.get("c", 0.0))
         elif fam == "plateau":
             r = np.floor(np.sum(np.abs(a)) / term.get("q", 1.0))
+        elif fam == "barrier":
+            # infinite penalty for "infeasible" points (death penalty), finite bowl elsewhere
+            r = np.inf if np.sum(a) > term.get("c", 0.0) else np.sum((a - 1.0) ** 2)
+        elif fam == "logsum":
+            # -inf on a zero coordinate, NaN on a negative one: an objective that is not defined on the whole box
+            r = np.sum(np.log(a) - 0.25 * a)
         elif fam == "altlinear":
             sgn = np.where(np.arange(len(a)) % 2 == 0, 1.0, -1.0)
             r = term.get("s", 1.0) * np.sum(sgn * a)
